@@ -5,7 +5,8 @@
    Reading guide.
    * A listing with contents is a list of (Stat, bytes) in walk order.  [wf_entries E] = strictly
      ascending in protocol path order, every "/"-prefix of a path is a listed directory, and hard
-     links are presented canonically: a link entry names an earlier entry that is the file itself
+     links are presented canonically: a link entry (regular file, device or fifo with a Linkname)
+     names an earlier entry that is the inode itself
      (empty Linkname), with the same metadata and bytes ([links_canon]) — what fs.Walk produces
      for a quiescent tree ([walk_views_are_wf]).
    * [receive_abs H hdr mode d A B] (Model/AbsDest.v, level A of DESIGN section 3; C02/C05) =
@@ -21,8 +22,9 @@
      transfer created ([created_by_transfer A s]: absent from A or of another type there; for a
      hard-link entry the xattr clause applies when the first name of its group is created:
      [inode_created] — a new name for an inode that stays in place shows that inode's xattrs);
-     hard-link groups as a PARTITION of the paths of regular files: two paths show one inode in
-     the destination iff they are in one link group of the source.
+     hard-link groups as a PARTITION of the paths of ALL entries that are neither directories nor
+     symbolic links (regular files, devices, fifos: [Converge.is_linkable]): two paths show one
+     inode in the destination iff they are in one link group of the source.
    * [AbsDest.identity_faithful d A B] (same identity key => same bytes) is part of the
      specification in dirty mode (C02 requires such files not to be re-sent): see
      [unrestricted_convergence_refuted]. *)
